@@ -6,6 +6,10 @@ NOTE = ("Trusted: Lean 4.33 kernel; axioms propext / Classical.choice / Quot.sou
         "factgen + Wsp/Props/FactsTie.lean; the wspcheck differ and generators; the theorems are about the model and "
         "model = code is established on the runs made (counts in the evidence).")
 CHECKS = {
+ "C04": ("The fetch shape is computed by a function of (archive list, id, window, clock) only; failure, absence and the closed form of bounds/step/length "
+         "are Lean theorems (closed form inside the zone of 32-bit arithmetic), and the executed fetch is proved to have the planned shape whether or not "
+         "the archive was ever written. Tied to the code by differential fetches over boundary windows on empty and non-empty archives.",
+         "Lean 4 theorems (case analysis + omega over faithful uint32/int32 arithmetic) + model/implementation correspondence check", "§5 C04"),
  "C07": ("validate decides WellFormed (ideal integers) although it computes in uint32/int32: a Lean theorem for all archive lists; "
          "all four entry points are proved to accept only through that test, and the header codec round-trips every accepted header. "
          "The float comparison for xFilesFactor is a named law validated against the code on all boundary bit patterns.",
